@@ -4,6 +4,7 @@ import (
 	"fmt"
 	"strings"
 	"sync/atomic"
+	"time"
 
 	eval "github.com/onheap/eval"
 
@@ -95,7 +96,7 @@ func c19(r *rep.Run) {
 	if r.Thorough() {
 		comps = append(comps, "100", "1000", "5000", "9008", "0000")
 	}
-	r.Rule = "versions: for every valid length N in 1..4 (explicit) and the default (3), EVERY version string of <= N components over {0,1,9,10,007,9998,9999} is encoded by the real operator under all three operator names, bound through a variable and written as a literal (folded at compile time); the encoding must equal the base-10000 positional value exactly and, for EVERY pair, sign(enc a - enc b) = component-wise comparison with missing components read as 0; (< (to_version a N) (to_version b N)) is also evaluated end-to-end for every pair with N <= 2 and every pair of 4-component strings over {0,9999}; every rejection (10000, 99999, letters, empty, blank-prefixed) in every position, valid lengths {0,5,-1,\"3\"} and wrong counts must be errors. dates: every date of an 11-year x 7-day calendar alphabet (year 1, 1600, 1900, 1969/1970, leap days, month ends, 9999) x {00:00:00, 00:00:01, 23:59:59} under the default layouts and two custom layouts (day-first, RFC 3339 with Z/+05:30/-08:00 offsets), all 8 operator names: Unix seconds must equal the independent days-from-civil computation, every pair must order chronologically, and impossible days/months/times and malformed texts must be errors. non-trivial = pairs whose order is decided by a component >= 9998 or by a date before 1970 / at a leap day"
+	r.Rule = "versions: for every valid length N in 1..4 (explicit) and the default (3), EVERY version string of <= N components over {0,1,9,10,007,9998,9999} is encoded by the real operator under all three operator names, bound through a variable and written as a literal (folded at compile time); the encoding must equal the base-10000 positional value exactly and, for EVERY pair, sign(enc a - enc b) = component-wise comparison with missing components read as 0; (< (to_version a N) (to_version b N)) is also evaluated end-to-end for every pair with N <= 2 and every pair of 4-component strings over {0,9999}; every rejection (10000, 99999, letters, empty, blank-prefixed) in every position, valid lengths {0,5,-1,\"3\"} and wrong counts must be errors. dates: every date of an 11-year x 7-day calendar alphabet (year 1, 1600, 1900, 1969/1970, leap days, month ends, 9999) x {00:00:00, 00:00:01, 23:59:59} under the default layouts and two custom layouts (day-first, RFC 3339 with Z/+05:30/-08:00 offsets), all 8 operator names: Unix seconds must equal the independent days-from-civil computation, every pair must order chronologically, and impossible days/months/times and malformed texts must be errors. non-trivial = pairs whose order is decided by a component >= 9998 or by a date before 1970 / at a leap day The date family runs under four process-local zones (time.Local = UTC, +02:00, -08:00, +05:45): the encoding is UTC whatever the host zone."
 	r.Assume = []string{"version components above the valid length, signed components and layouts other than the four modelled ones are outside the oracle (skipped, only checked for panics)"}
 	hs := harnesses(r.Workers)
 	vars := []term.VarDecl{{Name: "v0", Ty: term.TX}, {Name: "v1", Ty: term.TX}, {Name: "v2", Ty: term.TX}}
@@ -275,7 +276,7 @@ func c19(r *rep.Run) {
 	times := [][3]int{{0, 0, 0}, {0, 0, 1}, {23, 59, 59}}
 	type stamp struct {
 		y, mo, d, h, mi, s int
-		unix              int64
+		unix               int64
 	}
 	var stamps []stamp
 	for _, y := range years {
@@ -326,23 +327,32 @@ func c19(r *rep.Run) {
 			}
 		}
 	}
-	r.ParallelFor(len(dcases), func(w, i int) {
-		dc := dcases[i]
-		c := mk(w)
-		want, werr := ref.Builtin(dc.name, dc.args)
-		if werr != nil || want.(int64) != dc.want {
-			panic(fmt.Sprintf("c19: oracle inconsistency on %v: %v %v want %d", dc, want, werr, dc.want))
-		}
-		for _, lit := range []bool{false, true} {
-			got := c.call(dc.name, dc.args, lit)
-			if !drive.SameOutcome(got, drive.Out{Val: dc.want}) {
-				r.Violate("date-encoding", dc.name, sprintf("(%s %v) = %s, the UTC Unix time is %d", dc.name, dc.args, got, dc.want), map[string]interface{}{"literal": lit})
+	// the encoding is defined in UTC whatever zone the PROCESS runs in: the
+	// whole family is run under four local zones (an environment answer the
+	// harness owns: time.Local)
+	origLocal := time.Local
+	for _, zone := range []*time.Location{time.UTC, time.FixedZone("east", 2*3600), time.FixedZone("west", -8*3600), time.FixedZone("kathmandu", 5*3600+45*60)} {
+		time.Local = zone
+		zoneName := zone.String()
+		r.ParallelFor(len(dcases), func(w, i int) {
+			dc := dcases[i]
+			c := mk(w)
+			want, werr := ref.Builtin(dc.name, dc.args)
+			if werr != nil || want.(int64) != dc.want {
+				panic(fmt.Sprintf("c19: oracle inconsistency on %v: %v %v want %d", dc, want, werr, dc.want))
 			}
-		}
-		if i%311 == 0 {
-			r.Sample(12, map[string]interface{}{"date_call": fmt.Sprintf("(%s %v)", dc.name, dc.args), "unix": dc.want})
-		}
-	})
+			for _, lit := range []bool{false, true} {
+				got := c.call(dc.name, dc.args, lit)
+				if !drive.SameOutcome(got, drive.Out{Val: dc.want}) {
+					r.Violate("date-encoding", dc.name, sprintf("(%s %v) = %s, the UTC Unix time is %d (process local zone: %s)", dc.name, dc.args, got, dc.want, zoneName), map[string]interface{}{"literal": lit, "process_local_zone": zoneName})
+				}
+			}
+			if i%311 == 0 {
+				r.Sample(12, map[string]interface{}{"date_call": fmt.Sprintf("(%s %v)", dc.name, dc.args), "unix": dc.want})
+			}
+		})
+	}
+	time.Local = origLocal
 	// every pair orders chronologically (encodings were verified equal to the engine's)
 	var dp, dnt int64
 	for _, a := range stamps {
